@@ -1150,6 +1150,11 @@ type c8JW struct {
 	pf     map[string]uint64
 	hasDup bool
 	dups   int // remaining member duplications allowed in this document
+	// type-directed malformed documents: corrupt exactly the badAt-th site (document order) that class `bad` applies to
+	bad     string
+	badAt   int // -1: only count the sites
+	badSeen int
+	badHit  string // <Msg>.<GoField> of the corrupted site
 }
 
 func (w *c8JW) coin(n int) bool { return w.kind == "mixed" && w.r.IntN(n) == 0 }
@@ -1252,6 +1257,11 @@ func (w *c8JW) double(f float64) (string, string) {
 
 // scalar returns (text, J) of one element of f.
 func (w *c8JW) scalar(f *c8Field, v reflect.Value) (string, string) {
+	if w.bad != "" {
+		if t, j, ok := w.badScalar(f, v); ok {
+			return t, j
+		}
+	}
 	switch f.kind {
 	case c8U64, c8Fixed64, c8I64, c8Sfixed64:
 		var t string
@@ -1431,6 +1441,162 @@ func (w *c8JW) msg(m *c8MsgInfo, v reflect.Value) (string, string) {
 	tb.WriteByte('}')
 	jb.WriteByte('}')
 	return tb.String(), jb.String()
+}
+
+// c8BadClasses: every field kind with a fixed-length or constrained text encoding gets its own malformed spellings.
+// A class applies to the field kinds named in c8BadApplies; exactly one site of the document is corrupted.
+var c8BadClasses = []string{
+	"idlong2", "idlong4", "idlong32", "idshort2", "idodd", "idnonhex", "idupper", "idempty", "idnum", "idquoted",
+	"b64nopad", "b64badchar", "b64len1", "b64num",
+	"enumunknown", "enumbool", "enumrange",
+	"i64strrange", "i64numrange", "i64float", "i64bool", "i64strjunk", "u64neg",
+	"u32range", "u32neg",
+	"strnum", "strobj", "boolstr", "dblstrjunk", "dblbool",
+}
+
+func c8BadApplies(class string, k c8Kind) bool {
+	switch {
+	case strings.HasPrefix(class, "id"):
+		return k == c8ID
+	case strings.HasPrefix(class, "b64"):
+		return k == c8Bytes
+	case strings.HasPrefix(class, "enum"):
+		return k == c8Enum
+	case class == "u64neg":
+		return k == c8U64 || k == c8Fixed64
+	case strings.HasPrefix(class, "i64"):
+		return k == c8U64 || k == c8Fixed64 || k == c8I64 || k == c8Sfixed64
+	case class == "u32range":
+		return k == c8U32 || k == c8Fixed32 || k == c8I32
+	case class == "u32neg":
+		return k == c8U32 || k == c8Fixed32
+	case strings.HasPrefix(class, "str"):
+		return k == c8String
+	case class == "boolstr":
+		return k == c8Bool
+	case strings.HasPrefix(class, "dbl"):
+		return k == c8Double
+	}
+	return false
+}
+
+func (w *c8JW) badScalar(f *c8Field, v reflect.Value) (string, string, bool) {
+	if !c8BadApplies(w.bad, f.kind) {
+		return "", "", false
+	}
+	w.badSeen++
+	if w.badSeen-1 != w.badAt {
+		return "", "", false
+	}
+	w.badHit = f.owner.goType + "." + f.goName
+	s := func(t string) (string, string, bool) { a, b := w.str(t); return a, b, true }
+	n := func(t string) (string, string, bool) { a, b := c8Num(t); return a, b, true }
+	unsigned := f.kind == c8U64 || f.kind == c8Fixed64 || f.kind == c8U32 || f.kind == c8Fixed32
+	switch w.bad {
+	case "idlong2", "idlong4", "idlong32", "idshort2", "idodd", "idnonhex", "idupper", "idquoted":
+		bs := make([]byte, v.Len())
+		zero := true
+		for i := range bs {
+			bs[i] = byte(v.Index(i).Uint())
+			zero = zero && bs[i] == 0
+		}
+		if zero { // make it a non-zero id so that the text has the full length
+			for i := range bs {
+				bs[i] = byte(0xa1 + 7*i)
+			}
+		}
+		h := hex.EncodeToString(bs)
+		switch w.bad {
+		case "idlong2":
+			return s(h[:2] + h) // one hex pair duplicated
+		case "idlong4":
+			return s(h + h[len(h)-4:])
+		case "idlong32":
+			return s(h + strings.Repeat("ab", 16))
+		case "idshort2":
+			return s(h[:len(h)-2])
+		case "idodd":
+			return s(h[:len(h)-1])
+		case "idnonhex":
+			return s(h[:3] + "g" + h[4:])
+		case "idupper":
+			return s(strings.ToUpper(h))
+		default: // idquoted: the reader strips one pair of literal quotes
+			return s("\"" + h + "\"")
+		}
+	case "idempty":
+		return s("")
+	case "idnum":
+		return n("5")
+	case "b64nopad":
+		return s("Bwg") // "Bwg=" without its padding
+	case "b64badchar":
+		return s("QU*D")
+	case "b64len1":
+		return s("Q")
+	case "b64num":
+		return n("12")
+	case "enumunknown":
+		return s("NOT_A_VALUE_OF_THIS_ENUM")
+	case "enumbool":
+		return "true", "T", true
+	case "enumrange":
+		return n("2147483648")
+	case "i64strrange":
+		if unsigned {
+			return s("18446744073709551616")
+		}
+		return s("9223372036854775808")
+	case "i64numrange":
+		if unsigned {
+			return n("18446744073709551616")
+		}
+		return n("-9223372036854775809")
+	case "i64float":
+		return n("1.5")
+	case "i64bool":
+		return "false", "F", true
+	case "i64strjunk":
+		return s("12x")
+	case "u64neg":
+		if w.r.IntN(2) == 0 {
+			return s("-1")
+		}
+		return n("-1")
+	case "u32range":
+		if f.kind == c8I32 {
+			return n("2147483648")
+		}
+		return n("4294967296")
+	case "u32neg":
+		return n("-1")
+	case "strnum":
+		return n("5")
+	case "strobj":
+		return "{}", "{}", true
+	case "boolstr":
+		return s("true")
+	case "dblstrjunk":
+		return s("1.5abc")
+	case "dblbool":
+		return "true", "T", true
+	}
+	return "", "", false
+}
+
+// c8WriteBadJSON: the canonical document of x with exactly one site of class `class` corrupted (the k-th, chosen by r).
+// ok=false when the document has no site the class applies to.
+func c8WriteBadJSON(x any, class string, r *rand.Rand) (txt, j string, pf map[string]uint64, hit string, ok bool) {
+	v := reflect.ValueOf(x).Elem()
+	m := c8MsgOf(v.Type())
+	cnt := &c8JW{kind: "canon", r: r, pf: map[string]uint64{}, bad: class, badAt: -1}
+	cnt.msg(m, v)
+	if cnt.badSeen == 0 {
+		return "", "", nil, "", false
+	}
+	w := &c8JW{kind: "canon", r: r, pf: map[string]uint64{}, bad: class, badAt: r.IntN(cnt.badSeen)}
+	txt, j = w.msg(m, v)
+	return txt, j, w.pf, w.badHit, true
 }
 
 // c8WriteJSON renders x (pointer to a protogen struct) as a document of the given variant kind.
